@@ -24,12 +24,19 @@
 
   The functions with node events that the reader could not follow are listed in
   `Gen.cUncovered` (at present: the `_test_*` helpers only); no theorem speaks about them.
+  The reader REFUSES a function (it becomes not followed, `uncovered_only_tests` fails) rather
+  than guess: a node or a handle passed to a local name (an alias), to a computed callee or
+  (raw node) to something neither declared nor defined in the module; `incref`/`decref` on a
+  value it cannot identify; an update or a test of `_ref` of another shape than `h._ref += k`,
+  `h._ref = k`, `h._ref <rel> k`.  `allFunctionsSeen` ties the number of definition keywords of
+  each file to the functions the reader found.
 -/
 import DD.Doc
 import DD.CWrap
 import Generated.Tables
 import Generated.CTables
 import DD.CWrapReviewed
+import DDProofs.CQuantCube
 namespace DD
 
 /-! ### operator meanings -/
@@ -185,6 +192,59 @@ theorem cQuant_modes :
     cQuantMode .cudd "\\A" = some .cubeArg ∧ cQuantMode .cuddZdd "\\A" = some .supportOf ∧
     cQuantMode .sylvan "\\A" = some .cubeArg ∧ cQuantMode .buddy "\\A" = none := by decide
 
+/-- the variables that an accepted quantifier branch abstracts, when the first operand `u` is the
+positive cube of the list `S` and `L` lists the support of `u`.  ASSUMED meaning of the C calls in
+`cubeArg` mode (CUDD `Cudd_bddExistAbstract(f, cube)` / `Cudd_bddUnivAbstract`, Sylvan
+`sylvan_exists(a, variables)` / `sylvan_forall`): the variables that occur in the cube. -/
+def quantVars (mode : VarsMode) (S L : List Nat) : List Nat :=
+  match mode with
+  | .cubeArg => S
+  | .supportOf => L
+
+/-- **C19 (meaning of the quantifier spellings, gap between the back ends made precise).**
+`cQuant_roles` says that every back end quantifies the SECOND operand over variables taken from
+the FIRST; `cQuant_modes` says HOW they are taken: `dd.cudd` and `dd.sylvan` pass `u.node` as the
+cube argument of the library, `dd.cudd_zdd` (like `dd.bdd`) computes `support(u)`.  This theorem:
+
+1. on the regenerated tables, every accepted quantifier row of every back end is a recognised
+   quantifier call with roles (variables from `u`, `v` quantified) in one of the two modes;
+2. WHEN `u` IS A POSITIVE CUBE (`u = cubeOf S`), both modes abstract the same variables from any
+   `v`, namely the support of `u` — the back ends agree with `dd.bdd`, whatever list `L` of the
+   support is used (order, repetitions).
+
+OBSERVATION (not a theorem about the libraries, which cannot be run here): for an operand `u`
+that is NOT a positive cube (`or_not_cube`: `x ∨ y`) `dd.bdd` and `dd.cudd_zdd` still quantify over
+`support(u)`, whereas CUDD's `Cudd_bddExistAbstract` is documented to return `NULL` when its
+second argument is not a cube (`dd.cudd` then raises) and Sylvan's behaviour on a non-cube
+variable set is not specified.  User code that is meant to keep its meaning when the import is
+switched must therefore pass a conjunction of positive variables as the first operand. -/
+theorem cQuant_meaning_cube :
+    (Gen.cApply.all fun t => t.rows.all fun r =>
+      !(r.accepted && isQuantAlias r.alias) ||
+      match r.outcome with
+      | .ret e => (cRoles e).any fun q => q.varsFrom == .u && q.body == .v &&
+                    some q.forall_ == (docConn r.alias).map (· == .forall_)
+      | _ => false) = true ∧
+    ∀ (mode : VarsMode) (fa : Bool) (S L : List Nat) (v : CQuant.BFun),
+      (∀ x, x ∈ L ↔ CQuant.DependsOn (CQuant.cubeOf S) x) →
+      CQuant.quantL fa (quantVars mode S L) v = CQuant.quantL fa L v := by
+  refine ⟨by decide, ?_⟩
+  intro mode fa S L v hL
+  cases mode
+  · exact CQuant.quant_cube_eq_support fa S L v hL
+  · rfl
+
+/-- non-vacuity: `u = x₀ ∧ x₂`, its support listed as `[2, 0, 2]`; `∃` of `v = x₀ ⊕ x₁` is `true`,
+`∀` is `false`, in both modes -/
+example : (∀ x, x ∈ [2, 0, 2] ↔ CQuant.DependsOn (CQuant.cubeOf [0, 2]) x) := by
+  intro x
+  rw [CQuant.dependsOn_cubeOf]
+  simp only [List.mem_cons, List.not_mem_nil, or_false]
+  omega
+example : CQuant.quantL false (quantVars .cubeArg [0, 2] [2, 0, 2]) (fun a => a 0 != a 1) (fun _ => false) = true ∧
+    CQuant.quantL true (quantVars .supportOf [0, 2] [2, 0, 2]) (fun a => a 0 != a 1) (fun _ => false) = false := by
+  decide
+
 /-- the reader's own table of quantifier signatures (`cpyx.QUANT_SIG`, used by the Python
 oracle) and the one of `DD/CWrap.lean` give the same roles on every accepted quantifier row -/
 def cRolesConsistent : Bool :=
@@ -262,7 +322,16 @@ def localsOf (b : Backend) : List String :=
 * `Function.__dealloc__` gives back exactly one reference on every path that does not
   raise, except the path guarded by `self._ref == 0` (CUDD wrappers: the user already gave
   it back through `decref`);
-* `incref` / `decref` / `_incref` / `_decref` move exactly one reference;
+* `incref` / `decref` / `_incref` / `_decref` move exactly one reference; a call of one of them
+  from an ordinary method on a handle it made (`self.incref(f)`) counts as a reference taken /
+  given back on the handle's node;
+* in the CUDD wrappers, whose handles carry the counter `_ref` (`refField_backends`): on every
+  path of `Function.init`, `Function.__dealloc__`, `incref`, `decref` the change of `_ref`
+  equals the references taken minus those given back (`fieldPathOk`; INVARIANT `_ref` = library
+  references the handle owns; exception written into the definition: `decref(u, _direct=True)`),
+  `_ref` is decremented only where the path conditions make it positive, `__dealloc__` gives
+  nothing back only where they make it 0, `init` leaves it at exactly the one reference taken;
+  no other function assigns to `_ref`;
 * references parked in a container (`vector` of `_c_compose`, the memo `table` of
   `_compose_root` / `_compose`, `x` of `_multi_compose`, CUDD's hash table in
   `cuddHashTableQuitZdd`): a reference moves into the container when a node the function holds
@@ -285,7 +354,32 @@ filled, and the interplay "`init` raised, `__dealloc__` still runs" (CUDD wrappe
 by `_ref == 0`; `sylvan.pyx` dereferences the zero-initialised node attribute).
 (`decide +kernel`: the `Decidable` instance is evaluated by the kernel only — about 550 paths.) -/
 theorem refTraces_balanced :
-    (Gen.cRefTraces.all fun m => methodOk (localsOf m.backend) m) = true := by decide +kernel
+    (Gen.cRefTraces.all fun m =>
+      methodOkF (Gen.cRefFieldBackends.contains m.backend) (localsOf m.backend) m) = true := by decide +kernel
+
+/-- the handles of the two CUDD wrappers carry the counter `_ref` (`cdef public int _ref` in the
+class `Function`); Sylvan's and BuDDy's do not.  For the former, `refTraces_balanced` includes
+`fieldPathOk`: on every path of `Function.init`, `Function.__dealloc__`, `incref`, `decref` the
+change of `_ref` equals the library references taken minus those given back (INVARIANT: `_ref` =
+library references the handle owns); the counter is decremented only where the path conditions
+make it positive; `__dealloc__` keeps everything only where they make it 0.  The one exception is
+spelled out in `fieldPathOk`: `decref(u, _direct=True)`. -/
+theorem refField_backends : Gen.cRefFieldBackends = [.cudd, .cuddZdd] := by decide
+
+/-- every definition keyword of the four files is accounted for: the number of logical lines
+that begin a definition (`def`, `cpdef`, `async def`, `cdef … (` — counted from the keyword alone)
+equals the number of functions the reader found plus the definitions nested in their bodies, and
+every function found is followed (`Gen.cRefTraces`), listed as not followed (`Gen.cUncovered`), or
+has no node event at all -/
+theorem allFunctionsSeen :
+    Gen.cFunctionCount.map (·.1) = [.cudd, .cuddZdd, .sylvan, .buddy] ∧
+    (Gen.cFunctionCount.all fun x =>
+      match x with
+      | (b, tokens, found, nested, traced, uncovered, noEvents) =>
+        tokens == found + nested && found == traced + uncovered + noEvents &&
+        traced == (Gen.cRefTraces.filter (·.backend == b)).length &&
+        uncovered == (Gen.cUncovered.filter (·.backend == b)).length) = true := by
+  decide +kernel
 
 /-- additional check: an unprotected fresh node (no reference, no handle, not in a container that
 owns a reference) is never used after a later node-creating C call on the same path (such a call
@@ -396,6 +490,45 @@ example : runPath [] false false []
 example : runPath [] true false []
     [.produce 0 "Cudd_bddAnd" [], .produce 1 "Cudd_bddOr" [], .wrap 0, .retHandle] ≠ .ok := by decide
 example : (Gen.cRefTraces.length ≥ 100) = true := by decide +kernel
+
+/-! #### the counter of a handle -/
+
+-- `decref` as written: guard, decrement, one reference back
+example : fieldPathOk .refDec
+    [.guard "_direct" false, .fieldTest "u" "<=" 0 false, .fieldAdd "u" (-1), .param 0 "u.node",
+     .handleNode 0 "u", .deref 0 "_decref", .fieldTest "u" "==" 0 true, .retHandle] = true := by decide
+-- seeded C19h: `u._ref -= 1` deleted — the library reference goes, the counter stays; `__dealloc__`
+-- will give the reference back a second time
+example : fieldPathOk .refDec
+    [.guard "_direct" false, .fieldTest "u" "<=" 0 false, .param 0 "u.node", .handleNode 0 "u",
+     .deref 0 "_decref", .fieldTest "u" "==" 0 false, .retHandle] = false := by decide
+-- the decrement without the guard that makes the counter positive
+example : fieldPathOk .refDec
+    [.fieldAdd "u" (-1), .param 0 "u.node", .handleNode 0 "u", .deref 0 "_decref", .retHandle] = false := by
+  decide
+-- `__dealloc__`: keeps everything only when the counter is known to be 0; a flipped guard is refused
+example : fieldPathOk .handleDealloc
+    [.fieldTest "self" "<" 0 false, .fieldTest "self" "==" 0 true, .retHandle] = true := by decide
+example : fieldPathOk .handleDealloc
+    [.fieldTest "self" "<" 0 false, .fieldTest "self" "!=" 0 true, .retHandle] = false := by decide
+example : fieldPathOk .handleDealloc
+    [.fieldTest "self" "<" 0 false, .fieldTest "self" "!=" 0 false, .fieldAdd "self" (-1),
+     .param 0 "self.node", .handleNode 0 "self", .deref 0 "Cudd_RecursiveDeref", .retHandle] = false := by decide
+-- `init`: from 0 to exactly what was taken
+example : fieldPathOk .handleInit [.param 0 "node", .fieldSet "self" 1, .ref 0 "Cudd_Ref", .retHandle] = true := by
+  decide
+example : fieldPathOk .handleInit [.param 0 "node", .fieldSet "self" 2, .ref 0 "Cudd_Ref", .retHandle] = false := by
+  decide
+example : fieldPathOk .handleInit [.param 0 "node", .ref 0 "Cudd_Ref", .retHandle] = false := by decide
+-- contradictory conditions: the path is not taken
+example : fieldPathOk .refInc
+    [.fieldTest "u" "<=" 0 false, .fieldTest "u" ">" 0 false, .raise "AssertionError"] = true := by decide
+-- an ordinary method that touches the counter, or calls `incref` on a handle it made (seeded C19g)
+example : runPath [] false false [] [.fieldAdd "f" 1, .retHandle] ≠ .ok := by decide
+example : runPath [] false false []
+    [.produce 0 "Cudd_bddAnd" [], .wrap 0, .ref 0 "incref", .retHandle] ≠ .ok := by decide
+example : runPath [] false false []
+    [.produce 0 "Cudd_bddAnd" [], .wrap 0, .deref 0 "decref", .retHandle] ≠ .ok := by decide
 
 /-! #### references kept in containers -/
 
